@@ -1,5 +1,3 @@
-use std::collections::HashMap;
-
 use syn::{punctuated::Punctuated, Attribute, Meta, Token};
 
 use crate::{
@@ -8,7 +6,8 @@ use crate::{
 };
 
 pub(crate) struct TypeAttribute {
-    pub(crate) types: HashMap<HashType, Bound>,
+    /// The requested target types, in the order in which they are written.
+    pub(crate) types: Vec<(HashType, Bound)>,
 }
 
 #[derive(Debug)]
@@ -20,7 +19,7 @@ impl TypeAttributeBuilder {
     pub(crate) fn build_from_into_meta(&self, meta: &[Meta]) -> syn::Result<TypeAttribute> {
         debug_assert!(!meta.is_empty());
 
-        let mut types = HashMap::new();
+        let mut types: Vec<(HashType, Bound)> = Vec::new();
 
         for meta in meta {
             debug_assert!(meta.path().is_ident("Into"));
@@ -91,11 +90,11 @@ impl TypeAttributeBuilder {
                         }
                     }
 
-                    if types.contains_key(&ty) {
+                    if types.iter().any(|(t, _)| t == &ty) {
                         return Err(super::super::panic::reset_a_type(&ty));
                     }
 
-                    types.insert(ty, bound);
+                    types.push((ty, bound));
                 },
             }
         }
@@ -147,7 +146,7 @@ impl TypeAttributeBuilder {
         }
 
         Ok(output.unwrap_or(TypeAttribute {
-            types: HashMap::new()
+            types: Vec::new()
         }))
     }
 }
